@@ -84,11 +84,13 @@ fn dump() {
 
 // ---------------------------------------------------------------------------------------------- written
 
-static LOG: Mutex<BTreeMap<(u8, String, u8), u64>> = Mutex::new(BTreeMap::new());
+static LOG: Mutex<BTreeMap<(u8, String, u8), (u64, String)>> = Mutex::new(BTreeMap::new());
+static CURRENT: Mutex<String> = Mutex::new(String::new());
 
 fn sink(ty: &'static str, byte: u8, minor: u8) {
     let short = ty.rsplit("::").next().unwrap_or(ty).to_string();
-    *LOG.lock().unwrap_or_else(|e| e.into_inner()).entry((minor, short, byte)).or_insert(0) += 1;
+    let cur = CURRENT.lock().unwrap_or_else(|e| e.into_inner()).clone();
+    LOG.lock().unwrap_or_else(|e| e.into_inner()).entry((minor, short, byte)).or_insert((0, cur)).0 += 1;
 }
 
 fn variant_name(enum_name: &str, b: u8) -> String {
@@ -108,7 +110,7 @@ fn variant_name(enum_name: &str, b: u8) -> String {
 /// `c16 written <minor>:<magic>[,<minor>:<magic>...] <file.er>...`: compiles every file for every target in-process (the real
 /// `Compiler`, code generator instrumented through `verif_instr_log`) and prints
 ///    file <minor> <path> <ok|rejected|crash(..)>
-///    w <minor> <enum> <byte> <variant> <count>
+///    w <minor> <enum> <byte> <variant> <count> <first file that wrote it>
 fn written(rest: &[String]) {
     let targets: Vec<(u8, u32)> = rest[0]
         .split(',')
@@ -121,6 +123,7 @@ fn written(rest: &[String]) {
     for (minor, magic) in targets {
         for f in &rest[1..] {
             let path = std::path::PathBuf::from(f);
+            *CURRENT.lock().unwrap_or_else(|e| e.into_inner()) = f.clone();
             let res = catch(move || {
                 let mut cfg = ErgConfig::with_main_path(path);
                 cfg.target_version = Some(PythonVersion::new(3, Some(minor), Some(0)));
@@ -140,8 +143,8 @@ fn written(rest: &[String]) {
         }
     }
     let log = LOG.lock().unwrap_or_else(|e| e.into_inner());
-    for ((minor, en, b), c) in log.iter() {
-        println!("w\t{}\t{}\t{}\t{}\t{}", minor, en, b, variant_name(en, *b), c);
+    for ((minor, en, b), (c, first)) in log.iter() {
+        println!("w\t{}\t{}\t{}\t{}\t{}\t{}", minor, en, b, variant_name(en, *b), c, first);
     }
 }
 
@@ -151,6 +154,20 @@ fn main() {
     match a.mode.as_str() {
         "dump" => dump(),
         "written" => written(&a.rest),
+        // c16 pyc <minor>:<magic> <file.er> <out.pyc>: compile one program for one target and dump the .pyc (known-finding replay)
+        "pyc" => {
+            let (mi, ma) = a.rest[0].split_once(':').expect("minor:magic");
+            let (minor, magic): (u8, u32) = (mi.parse().unwrap(), ma.parse().unwrap());
+            let mut cfg = ErgConfig::with_main_path(std::path::PathBuf::from(&a.rest[1]));
+            cfg.target_version = Some(PythonVersion::new(3, Some(minor), Some(0)));
+            cfg.py_magic_num = Some(magic);
+            let src = cfg.input.read();
+            let mut compiler = Compiler::new(cfg);
+            match compiler.compile_and_dump_as_pyc(&a.rest[2], src, "exec") {
+                Ok(_) => println!("ok"),
+                Err(_) => println!("rejected"),
+            }
+        }
         _ => { eprintln!("usage: c16 dump | c16 written <minor:magic,...> <files>"); std::process::exit(2); }
     }
 }
